@@ -28,6 +28,14 @@ def gen(repo):
     t = src("tight.c")
     m = must(r"#define TIGHT_MIN_TO_COMPRESS (\d+)", t, "TIGHT_MIN_TO_COMPRESS")
     out.append("def TIGHT_MIN_TO_COMPRESS : Nat := %s" % m.group(1))
+    for name in ("MIN_SPLIT_RECT_SIZE", "MIN_SOLID_SUBRECT_SIZE", "MAX_SPLIT_TILE_SIZE", "TIGHT_MAX_RECT_SIZE",
+                 "TIGHT_MAX_RECT_WIDTH"):
+        m = must(r"#define %s\s+(\d+)" % name, t, name)
+        out.append("def %s : Nat := %s" % (name, m.group(1)))
+    m = must(r"static TIGHT_CONF tightConf\[4\] = \{\s*\{([^}]*)\}[^{]*\{([^}]*)\}", t, "tightConf rows 0,1")
+    rows = [[int(x) for x in g.split(",")] for g in m.groups()]
+    out.append("def tightConfRows : List (List Nat) := %s" % str(rows).replace("'", ""))
+    must(r"else if \(cl->tightCompressLevel > 1\) cl->tightCompressLevel = 1;", t, "tight level clamp without JPEG")
     zo = src("zrleoutstream.c")
     must(r"deflate\(&os->zs, Z_SYNC_FLUSH\)", zo, "zrleOutStreamFlush sync flush")
     return "\n".join(out) + "\n"
